@@ -60,6 +60,37 @@ def gen_recorder(prop):
     return rec
 
 
+def phased_recorder(prop):
+    """main phase, then the extreme-argument phase in a child process under an address-space limit: a library
+    that allocates or reads before gating can take the process down, which is behaviour of the real code"""
+    import resource
+
+    def rec(binary, tier, seed):
+        d = vlib.scratch("verif-tr-")
+        out = os.path.join(d, "trace.ndjson")
+        vlib.run_harness(binary, ["gen", "-prop", prop, "-tier", tier, "-seed", str(seed), "-out", out])
+        lines = vlib.read_trace(out)
+        out2 = os.path.join(d, "extreme.ndjson")
+
+        def limit():
+            resource.setrlimit(resource.RLIMIT_AS, (12 << 30, 12 << 30))
+        env = dict(os.environ, VERIF_DATA=os.path.join(vlib.SPEC, "data"))
+        r = subprocess.run(["timeout", "900", binary, "gen", "-prop", prop, "-tier", tier, "-seed", str(seed), "-arg", "extreme", "-out", out2],
+                           capture_output=True, text=True, env=env, preexec_fn=limit)
+        ext = vlib.read_trace(out2) if os.path.exists(out2) else []
+        if ext and not ext[-1].endswith("\n"):
+            ext = ext[:-1]
+        if r.returncode != 0:
+            if "github.com/islishude/bip39." in r.stderr and ("fatal error" in r.stderr or "panic:" in r.stderr or "out of memory" in r.stderr):
+                last = next((json.loads(x) for x in reversed(ext) if '"op":"NewMnemonicCall"' in x), {})
+                ext.append(json.dumps({"op": "Crash", "panicked": True, "timeout": False, "call": last,
+                                       "panic": [ord(c) for c in r.stderr[:1200] if ord(c) < 0x110000]}) + "\n")
+            else:
+                raise Infra("harness (extreme phase) failed rc=%d: %s" % (r.returncode, r.stderr[-1500:]))
+        return lines + ext, 2, {}
+    return rec
+
+
 # --------------------------------------------------------------------------
 # what a property speaks about (for the measured coverage numbers)
 
@@ -188,11 +219,11 @@ RECIPES = {
                 speaks=lambda e: e.get("op") in ("ByEntropy", "Check", "ListSource"),
                 rule="all 10 x 2048 list indices: the word emitted through NewMnemonicByEntropy for every index (cover family), validation of sentences "
                      "containing every word and of the same sentences with one word replaced by a list neighbour, and the parsed source text of internal/wordlist/*.go"),
-    "C09": dict(mc=[MC_GATES], record=gen_recorder("C09"), props=["C09", "DRIFT"], exhaustive=True,
-                speaks=lambda e: e.get("op") in ("ByEntropy", "NewMnemonic", "Read"),
+    "C09": dict(mc=[MC_GATES], record=phased_recorder("C09"), props=["C09", "DRIFT"], exhaustive=True,
+                speaks=lambda e: e.get("op") in ("ByEntropy", "NewMnemonic", "Read", "Crash"),
                 rule="every entropy length 0..4096 (+nil, +2^16/2^20/2^24 +-{0,1,4}) and every word count -4096..4096 (+extremes of int) under a counting source; "
                      "distinct by (operation, length or count, language)"),
-    "C14": dict(mc=[MC_NAMES], record=gen_recorder("C14"), props=["C14"],
+    "C14": dict(mc=[MC_NAMES], record=phased_recorder("C14"), props=["C14"],
                 speaks=lambda e: "panicked" in e,
                 rule="product of argument classes (21 Language values x strings incl. every invalid-UTF-8 shape x entropy sizes x counts), fuzzed bytes, "
                      "multi-megabyte inputs, each call under recover and a 120 s watchdog; distinct by (operation, arguments)"),
